@@ -270,6 +270,14 @@ func (e *Engine) evalComposite(st *State, x *ast.CompositeLit) []valOut {
 		// composite literals in the analysed code have fork-free elements.
 		if name != "" {
 			res.Fields[name] = lastV
+			// a struct stored by value in a literal field is a copy taken now: later writes to the source are not seen through it
+			if lastV != nil && lastV.Type != nil {
+				if _, isStruct := lastV.Type.Underlying().(*types.Struct); isStruct && (lastV.Kind == KAlloc || lastV.Kind == KHavoc || lastV.Kind == KParam) {
+					for _, s := range next {
+						e.emit(s, &Event{Kind: EvStructCopy, Pos: valx.Pos(), Recv: lastV, Value: res, Note: "literal:" + name})
+					}
+				}
+			}
 		} else {
 			res.Elems = append(res.Elems, lastV)
 		}
